@@ -3,7 +3,7 @@ Property C03 — crypto: every algorithm round-trips, interoperates and rejects 
 Theorems about the executable model `Kit.CryptoGlue` (model of /repo/crypto's glue code over
 abstract primitives).  Helper lemmas: `KitProofs/Lemmas/CryptoGlue*.lean`.
 -/
-import KitProofs.Lemmas.CryptoGlueAead
+import KitProofs.Lemmas.CryptoGlueNF
 namespace Kit.CryptoGlue
 open Kit Kit.CryptoGlue.Facts
 
@@ -300,7 +300,7 @@ theorem aead_split_join (a : AEAD) (hA : a.Lawful) (pt nonce ad : Bytes)
   obtain ⟨out, hs, hov, ho⟩ := hA.roundtrip nonce pt ad hn
   refine ⟨out.take (out.length - a.overhead), out.drop (out.length - a.overhead), ?_, ?_, ?_, ?_⟩
   · rw [encryptAEAD_eq, if_neg (by omega), hs]
-    simp only
+    simp only [Outcome.bind]
     rw [if_neg (by omega)]
   · simp; omega
   · rw [List.take_append_drop]; exact hs
@@ -314,16 +314,18 @@ theorem aead_split_lengths (a : AEAD) (hE : a.Exact) (pt nonce ad ct tag : Bytes
   rw [encryptAEAD_eq] at h
   split at h
   · cases h
-  · split at h
-    · rename_i out hs
+  · cases hs : a.doSeal nonce pt ad with
+    | ok out =>
+      rw [hs] at h
+      simp only [Outcome.bind] at h
       have hl := hE nonce pt ad out hs
       split at h
       · cases h
       · injection h with h; injection h with h1 h2
         subst h1 h2
         simp; omega
-    · cases h
-    · cases h
+    | err e => rw [hs] at h; cases h
+    | panic w => rw [hs] at h; cases h
 
 /-- The model's own CBC-HMAC construction satisfies the abstract AEAD law, so the hypotheses of
 `aead_split_join` are satisfiable by the very functions the driver runs. -/
@@ -333,5 +335,411 @@ theorem cbcHmacAEAD_lawful (P : Prims) (p : AeadParams) (key : Bytes)
   refine ⟨fun nonce pt ad hn => ?_⟩
   obtain ⟨out, h1, h2, h3⟩ := cbcHmacOpen_seal P p key nonce pt ad hL hm hn
   exact ⟨out, h1, by simp [cbcHmacAEAD]; omega, h3⟩
+
+/-! ## 5. guards ⇒ sentinels, over the generated guard prefixes and tables
+
+`denotes` (KitProofs/Lemmas/CryptoGlueSpec.lean) says what each listed name stands for; all
+statements quantify over every name of the generated `supportedSymmetric` list and over all
+byte strings (sizes are symbolic).  An `Outcome.err` carries no output by construction. -/
+
+/-- A key that is not an octet sequence ⇒ `ErrKeyTypeMismatch`, for every name (listed or not). -/
+theorem guards_key_kind (P : Prims) (alg : String) (k : Key) (hk : k.kind ≠ .oct)
+    (pt ct nonce tag ad : Bytes) :
+    encryptSymmetric P pt alg k nonce ad = .err eKeyTypeMismatch ∧
+    decryptSymmetric P ct alg k nonce tag ad = .err eKeyTypeMismatch := by
+  have h1 : keyTypeName k.kind ≠ Generated.C03.kind_EncryptSymmetric.1 := by
+    cases hkk : k.kind <;> simp_all [keyTypeName, Generated.C03.kind_EncryptSymmetric]
+  have h2 : keyTypeName k.kind ≠ Generated.C03.kind_DecryptSymmetric.1 := h1
+  unfold encryptSymmetric decryptSymmetric
+  rw [if_pos h1, if_pos h2]
+  exact ⟨rfl, rfl⟩
+
+example : (⟨.rsaPub, []⟩ : Key).kind ≠ .oct := by decide
+
+/-- A name outside the supported list ⇒ `ErrUnsupportedAlgorithm` (the helpers, and with them the
+slicing in `expectedKeySize`, are never reached). -/
+theorem guards_unknown_name (P : Prims) (alg : String) (h : alg ∉ Generated.C03.supportedSymmetric)
+    (key pt ct nonce tag ad : Bytes) :
+    encryptSymmetric P pt alg ⟨.oct, key⟩ nonce ad = .err eUnsupportedAlgorithm ∧
+    decryptSymmetric P ct alg ⟨.oct, key⟩ nonce tag ad = .err eUnsupportedAlgorithm := by
+  have hsub : ∀ sw ∈ [Generated.C03.sw_EncryptSymmetric, Generated.C03.sw_DecryptSymmetric],
+      ∀ c ∈ sw.cases, ∀ a ∈ c.1, a ∈ Generated.C03.supportedSymmetric := by decide
+  have hnone : ∀ sw ∈ [Generated.C03.sw_EncryptSymmetric, Generated.C03.sw_DecryptSymmetric],
+      lookupSwitch sw alg = none := by
+    intro sw hsw
+    unfold lookupSwitch
+    rw [Option.map_eq_none_iff, List.find?_eq_none]
+    intro c hc hcon
+    exact h (hsub sw hsw c hc alg (by simpa using hcon))
+  have hE := hnone _ (List.mem_cons_self)
+  have hD := hnone _ (List.mem_cons_of_mem _ (List.mem_cons_self))
+  have hkE : keyTypeName KeyKind.oct = Generated.C03.kind_EncryptSymmetric.1 := by decide
+  have hkD : keyTypeName KeyKind.oct = Generated.C03.kind_DecryptSymmetric.1 := by decide
+  unfold encryptSymmetric decryptSymmetric
+  simp only [hkE, ne_eq, not_true_eq_false, if_false, hE, hD]
+  exact ⟨rfl, rfl⟩
+
+example : "A128GCMKW" ∉ Generated.C03.supportedSymmetric := by decide
+
+/-- Wrong key size ⇒ `ErrKeyTypeMismatch`, both directions, every listed name. -/
+theorem guards_key_size (P : Prims) (alg : String) (d : Denotes)
+    (h : alg ∈ Generated.C03.supportedSymmetric) (hd : denotes alg = some d)
+    (key pt ct nonce tag ad : Bytes) (hk : key.length ≠ d.keyLen) :
+    encryptSymmetric P pt alg ⟨.oct, key⟩ nonce ad = .err eKeyTypeMismatch ∧
+    decryptSymmetric P ct alg ⟨.oct, key⟩ nonce tag ad = .err eKeyTypeMismatch := by
+  have hf := symFacts_of_mem h hd
+  cases hfam : d.family
+  · rw [encNF_cbc P hf hfam, decNF_cbc P hf hfam, if_pos hk, if_pos hk]; exact ⟨rfl, rfl⟩
+  · rw [encNF_gcm P hf hfam, decNF_gcm P hf hfam, if_pos hk, if_pos hk]; exact ⟨rfl, rfl⟩
+  · obtain ⟨c, p, hc, hp, hkl, hsum, _⟩ := symFacts_cbchmac hf hfam
+    rw [encNF_cbchmac P hf hfam c p hc hp hkl hsum, decNF_cbchmac P hf hfam c p hc hp hkl hsum,
+      if_pos hk, if_pos hk]; exact ⟨rfl, rfl⟩
+  · rw [encNF_kw P hf hfam, decNF_kw P hf hfam, if_pos hk, if_pos hk]; exact ⟨rfl, rfl⟩
+  · obtain ⟨c, hc, hkl, hnl, _⟩ := symFacts_chacha hf hfam
+    rw [encNF_chacha P hf hfam c hc hkl hnl, decNF_chacha P hf hfam c hc hkl hnl, if_pos hk, if_pos hk]
+    exact ⟨rfl, rfl⟩
+
+example : denotes "A192CBC-HS384" = some { family := .cbchmac, keyLen := 48, nonceLen := 16, tagLen := 24, hashBits := 384 } := by
+  decide
+
+/-- Right key, wrong nonce size ⇒ `ErrInvalidNonce`, both directions, every listed name that
+takes a nonce (key wrap takes none). -/
+theorem guards_nonce (P : Prims) (hS : P.Std) (alg : String) (d : Denotes)
+    (h : alg ∈ Generated.C03.supportedSymmetric) (hd : denotes alg = some d) (hnkw : d.family ≠ .kw)
+    (key pt ct nonce tag ad : Bytes) (hk : key.length = d.keyLen) (hn : nonce.length ≠ d.nonceLen) :
+    encryptSymmetric P pt alg ⟨.oct, key⟩ nonce ad = .err eInvalidNonce ∧
+    decryptSymmetric P ct alg ⟨.oct, key⟩ nonce tag ad = .err eInvalidNonce := by
+  have hf := symFacts_of_mem h hd
+  have hk' : ¬ key.length ≠ d.keyLen := by omega
+  cases hfam : d.family
+  · obtain ⟨_, _, _, _, _, hnl, _⟩ := symFacts_cbc hf hfam
+    rw [hnl] at hn
+    constructor
+    · rw [encNF_cbc P hf hfam, if_neg hk', if_pos hn]
+    · rw [decNF_cbc P hf hfam, if_neg hk', if_pos hn]
+  · obtain ⟨_, _, hnl, _⟩ := symFacts_gcm hf hfam
+    rw [hnl] at hn
+    constructor
+    · rw [encNF_gcm P hf hfam, if_neg hk', encryptAEAD_eq, hS.gcmNonce, if_pos hn]
+    · rw [decNF_gcm P hf hfam, if_neg hk', decryptAEAD_eq, hS.gcmNonce, if_pos hn]
+  · obtain ⟨c, p, hc, hp, hkl, hsum, _, _, _, _, _, hnl⟩ := symFacts_cbchmac hf hfam
+    rw [hnl] at hn
+    have hn' : nonce.length ≠ (cbcHmacAEAD P p key).nonceSize := hn
+    constructor
+    · rw [encNF_cbchmac P hf hfam c p hc hp hkl hsum, if_neg hk', encryptAEAD_eq, if_pos hn']
+    · rw [decNF_cbchmac P hf hfam c p hc hp hkl hsum, if_neg hk', decryptAEAD_eq, if_pos hn']
+  · exact absurd hfam hnkw
+  · obtain ⟨c, hc, hkl, hnl, _⟩ := symFacts_chacha hf hfam
+    constructor
+    · rw [encNF_chacha P hf hfam c hc hkl hnl, if_neg hk', if_pos hn]
+    · rw [decNF_chacha P hf hfam c hc hkl hnl, if_neg hk', if_pos hn]
+
+/-- Right key and nonce, wrong tag size ⇒ `ErrInvalidTag` (before anything is opened), for every
+listed AEAD name. -/
+theorem guards_tag (P : Prims) (hS : P.Std) (alg : String) (d : Denotes)
+    (h : alg ∈ Generated.C03.supportedSymmetric) (hd : denotes alg = some d)
+    (haead : d.family = .gcm ∨ d.family = .cbchmac ∨ d.family = .chacha)
+    (key ct nonce tag ad : Bytes) (hk : key.length = d.keyLen) (hn : nonce.length = d.nonceLen)
+    (ht : tag.length ≠ d.tagLen) :
+    decryptSymmetric P ct alg ⟨.oct, key⟩ nonce tag ad = .err eInvalidTag := by
+  have hf := symFacts_of_mem h hd
+  cases hfam : d.family
+  · simp [hfam] at haead
+  · obtain ⟨_, _, hnl, htl⟩ := symFacts_gcm hf hfam
+    rw [decNF_gcm P hf hfam, if_neg (by omega), decryptAEAD_eq, hS.gcmNonce, hS.gcmOverhead,
+      if_neg (by omega), if_pos (by omega)]
+  · obtain ⟨c, p, hc, hp, hkl, hsum, htl, _, _, _, _, hnl⟩ := symFacts_cbchmac hf hfam
+    have hn' : ¬ nonce.length ≠ (cbcHmacAEAD P p key).nonceSize := by
+      show ¬ nonce.length ≠ 16; omega
+    have ht' : tag.length ≠ (cbcHmacAEAD P p key).overhead := by
+      show tag.length ≠ p.tagSize; omega
+    rw [decNF_cbchmac P hf hfam c p hc hp hkl hsum, if_neg (by omega), decryptAEAD_eq,
+      if_neg hn', if_pos ht']
+  · simp [hfam] at haead
+  · obtain ⟨c, hc, hkl, hnl, htl, _, hctor⟩ := symFacts_chacha hf hfam
+    obtain ⟨_, hov⟩ := chachaAEAD_sizes P hS c key d.nonceLen hctor
+    rw [decNF_chacha P hf hfam c hc hkl hnl, if_neg (by omega), if_neg (by omega), hov,
+      if_pos (by omega)]
+
+/-- NOPAD names: right key and IV, plaintext not a whole number of blocks ⇒
+`ErrInvalidPlaintextLength`. -/
+theorem guards_nopad_plaintext (P : Prims) (alg : String) (d : Denotes)
+    (h : alg ∈ Generated.C03.supportedSymmetric) (hd : denotes alg = some d)
+    (hfam : d.family = .cbc) (hnp : d.nopad = true)
+    (key pt nonce ad : Bytes) (hk : key.length = d.keyLen) (hn : nonce.length = 16)
+    (hp : pt.length % 16 ≠ 0) :
+    encryptSymmetric P pt alg ⟨.oct, key⟩ nonce ad = .err eInvalidPlaintextLength := by
+  have hf := symFacts_of_mem h hd
+  rw [encNF_cbc P hf hfam, if_neg (by omega), if_neg (by omega), if_pos ⟨hnp, hp⟩]
+
+example : denotes "A256CBC-NOPAD" = some { family := .cbc, keyLen := 32, nonceLen := 16, tagLen := 0, nopad := true } := by
+  decide
+
+/-- CBC names (with or without padding): right key and IV, ciphertext not a whole number of
+blocks ⇒ `ErrInvalidCiphertextLength`. -/
+theorem guards_cbc_ciphertext (P : Prims) (alg : String) (d : Denotes)
+    (h : alg ∈ Generated.C03.supportedSymmetric) (hd : denotes alg = some d) (hfam : d.family = .cbc)
+    (key ct nonce tag ad : Bytes) (hk : key.length = d.keyLen) (hn : nonce.length = 16)
+    (hc : ct.length % 16 ≠ 0) :
+    decryptSymmetric P ct alg ⟨.oct, key⟩ nonce tag ad = .err eInvalidCiphertextLength := by
+  have hf := symFacts_of_mem h hd
+  rw [decNF_cbc P hf hfam, if_neg (by omega), if_neg (by omega), if_pos hc]
+
+/-- The statement "wrong kind/size ⇒ the package's sentinel, and no output" assembled. -/
+def guards_sentinels_statement (P : Prims) : Prop :=
+  (∀ alg (k : Key), k.kind ≠ .oct → ∀ pt ct nonce tag ad,
+      encryptSymmetric P pt alg k nonce ad = .err eKeyTypeMismatch ∧
+      decryptSymmetric P ct alg k nonce tag ad = .err eKeyTypeMismatch) ∧
+  (∀ alg, alg ∉ Generated.C03.supportedSymmetric → ∀ key pt ct nonce tag ad,
+      encryptSymmetric P pt alg ⟨.oct, key⟩ nonce ad = .err eUnsupportedAlgorithm ∧
+      decryptSymmetric P ct alg ⟨.oct, key⟩ nonce tag ad = .err eUnsupportedAlgorithm) ∧
+  (∀ alg d, alg ∈ Generated.C03.supportedSymmetric → denotes alg = some d →
+    ∀ key pt ct nonce tag ad,
+      (key.length ≠ d.keyLen →
+        encryptSymmetric P pt alg ⟨.oct, key⟩ nonce ad = .err eKeyTypeMismatch ∧
+        decryptSymmetric P ct alg ⟨.oct, key⟩ nonce tag ad = .err eKeyTypeMismatch) ∧
+      (key.length = d.keyLen → d.family ≠ .kw → nonce.length ≠ d.nonceLen →
+        encryptSymmetric P pt alg ⟨.oct, key⟩ nonce ad = .err eInvalidNonce ∧
+        decryptSymmetric P ct alg ⟨.oct, key⟩ nonce tag ad = .err eInvalidNonce) ∧
+      (key.length = d.keyLen → nonce.length = d.nonceLen →
+        (d.family = .gcm ∨ d.family = .cbchmac ∨ d.family = .chacha) → tag.length ≠ d.tagLen →
+        decryptSymmetric P ct alg ⟨.oct, key⟩ nonce tag ad = .err eInvalidTag) ∧
+      (key.length = d.keyLen → nonce.length = 16 → d.family = .cbc → d.nopad = true →
+        pt.length % 16 ≠ 0 →
+        encryptSymmetric P pt alg ⟨.oct, key⟩ nonce ad = .err eInvalidPlaintextLength) ∧
+      (key.length = d.keyLen → nonce.length = 16 → d.family = .cbc → ct.length % 16 ≠ 0 →
+        decryptSymmetric P ct alg ⟨.oct, key⟩ nonce tag ad = .err eInvalidCiphertextLength))
+
+theorem guards_sentinels (P : Prims) (hS : P.Std) : guards_sentinels_statement P :=
+  ⟨fun alg k hk pt ct nonce tag ad => guards_key_kind P alg k hk pt ct nonce tag ad,
+   fun alg h key pt ct nonce tag ad => guards_unknown_name P alg h key pt ct nonce tag ad,
+   fun alg d h hd key pt ct nonce tag ad =>
+    ⟨fun hk => guards_key_size P alg d h hd key pt ct nonce tag ad hk,
+     fun hk hkw hn => guards_nonce P hS alg d h hd hkw key pt ct nonce tag ad hk hn,
+     fun hk hn ha ht => guards_tag P hS alg d h hd ha key ct nonce tag ad hk hn ht,
+     fun hk hn hf hnp hp => guards_nopad_plaintext P alg d h hd hf hnp key pt nonce ad hk hn hp,
+     fun hk hn hf hc => guards_cbc_ciphertext P alg d h hd hf key ct nonce tag ad hk hn hc⟩⟩
+
+/-! ## 5b. the headline: decryption inverts encryption for every listed symmetric name -/
+
+/-- For every name of `SupportedSymmetricAlgorithms()`, every key of the size the name denotes,
+every nonce of the right size and every plaintext the algorithm accepts (NOPAD: whole blocks;
+key wrap: RFC 3394's domain): `EncryptSymmetric` succeeds, the tag has the length the name
+denotes, and `DecryptSymmetric` returns the plaintext — for all primitives that satisfy their
+standards' laws (`D ∘ E = id`, `Open ∘ Seal = id`). -/
+theorem sym_roundtrip (P : Prims) (hS : P.Std) (hL : P.LawfulPrims) (alg : String) (d : Denotes)
+    (h : alg ∈ Generated.C03.supportedSymmetric) (hd : denotes alg = some d)
+    (key pt nonce ad : Bytes) (hk : key.length = d.keyLen)
+    (hn : d.family ≠ .kw → nonce.length = d.nonceLen)
+    (hnp : d.nopad = true → pt.length % 16 = 0)
+    (hkw : d.family = .kw → pt.length % 8 = 0 ∧ 16 ≤ pt.length) :
+    ∃ ct tag, encryptSymmetric P pt alg ⟨.oct, key⟩ nonce ad = .ok (ct, tag) ∧ tag.length = d.tagLen ∧
+      decryptSymmetric P ct alg ⟨.oct, key⟩ nonce tag ad = .ok pt := by
+  have hf := symFacts_of_mem h hd
+  have hk' : ¬ key.length ≠ d.keyLen := by omega
+  cases hfam : d.family
+  · -- CBC with / without PKCS#7
+    obtain ⟨_, hkl, _, _, _, hnl, htl⟩ := symFacts_cbc hf hfam
+    have hn16 : nonce.length = 16 := by rw [← hnl]; exact hn (by simp [hfam])
+    have haes := hL.aes key (by omega)
+    by_cases hpad : d.nopad = true
+    · obtain ⟨ct, he, hcl, hdec⟩ := cbcEncrypt_ok _ haes nonce pt hn16 (hnp hpad)
+      refine ⟨ct, [], ?_, by simp [htl], ?_⟩
+      · rw [encNF_cbc P hf hfam, if_neg hk', if_neg (by omega), if_neg (by simp [hnp hpad]), if_pos hpad, he]
+        rfl
+      · rw [decNF_cbc P hf hfam, if_neg hk', if_neg (by omega), if_neg (by rw [hcl]; simp [hnp hpad]), hdec]
+        simp [Outcome.bind, hpad]
+    · have hpl : (pt ++ List.replicate (16 - pt.length % 16) (UInt8.ofNat (16 - pt.length % 16))).length % 16 = 0 := by
+        simp only [List.length_append, List.length_replicate]
+        exact padLen_mod _ _ (by omega)
+      obtain ⟨ct, he, hcl, hdec⟩ := cbcEncrypt_ok _ haes nonce _ hn16 hpl
+      refine ⟨ct, [], ?_, by simp [htl], ?_⟩
+      · rw [encNF_cbc P hf hfam, if_neg hk', if_neg (by omega), if_neg (by simp [hpad]), if_neg hpad,
+          pad_eq pt 16 (by omega) (by omega)]
+        simp only [Outcome.bind, he]
+      · rw [decNF_cbc P hf hfam, if_neg hk', if_neg (by omega), if_neg (by rw [hcl]; omega), hdec]
+        simp only [Outcome.bind, hpad, Bool.false_eq_true, if_false]
+        exact unpad_of_shape pt _ 16 (by omega) (by omega) (by omega) (by omega)
+          (by simpa using hpl)
+  · -- AES-GCM
+    obtain ⟨_, _, hnl, htl⟩ := symFacts_gcm hf hfam
+    have hn12 : nonce.length = (P.gcm key).nonceSize := by
+      rw [hS.gcmNonce, ← hnl]; exact hn (by simp [hfam])
+    obtain ⟨ct, tag, he, htag, _, hdec⟩ := aead_split_join (P.gcm key) (hL.gcm key) pt nonce ad hn12
+    refine ⟨ct, tag, ?_, by rw [htag, hS.gcmOverhead, htl], ?_⟩
+    · rw [encNF_gcm P hf hfam, if_neg hk', he]
+    · rw [decNF_gcm P hf hfam, if_neg hk', hdec]
+  · -- AES-CBC-HMAC-SHA2
+    obtain ⟨c, p, hc, hp, hkl, hsum, htl, _, henc, _, hhash, hnl⟩ := symFacts_cbchmac hf hfam
+    have hekl : (encKeyOf p key).length = p.encKeySize := by simp [encKeyOf]; omega
+    have haes := hL.aes (encKeyOf p key) (by omega)
+    have hmac : MacLongEnough P p := by
+      intro k m
+      have := hL.hmacLen p.hashBits k m
+      omega
+    have hA := cbcHmacAEAD_lawful P p key haes hmac
+    have hn16 : nonce.length = (cbcHmacAEAD P p key).nonceSize := by
+      show nonce.length = 16
+      rw [← hnl]; exact hn (by simp [hfam])
+    obtain ⟨ct, tag, he, htag, _, hdec⟩ := aead_split_join _ hA pt nonce ad hn16
+    refine ⟨ct, tag, ?_, by rw [htag, ← htl]; rfl, ?_⟩
+    · rw [encNF_cbchmac P hf hfam c p hc hp hkl hsum, if_neg hk', he]
+    · rw [decNF_cbchmac P hf hfam c p hc hp hkl hsum, if_neg hk', hdec]
+  · -- RFC 3394 key wrap
+    obtain ⟨_, hkl, _, htl⟩ := symFacts_kw hf hfam
+    have haes := hL.aes key (by omega)
+    obtain ⟨h8, h16⟩ := hkw hfam
+    obtain ⟨w, hw, _, hu⟩ := unwrap_wrap _ haes pt h8 h16
+    refine ⟨w, [], ?_, by simp [htl], ?_⟩
+    · rw [encNF_kw P hf hfam, if_neg hk', hw]; rfl
+    · rw [decNF_kw P hf hfam, if_neg hk', hu]
+  · -- (X)ChaCha20-Poly1305
+    obtain ⟨c, hc, hkl, hnl, htl, hsplit, hctor⟩ := symFacts_chacha hf hfam
+    obtain ⟨hns, hov⟩ := chachaAEAD_sizes P hS c key d.nonceLen hctor
+    have hnn : nonce.length = d.nonceLen := hn (by simp [hfam])
+    obtain ⟨out, hs, hol, ho⟩ := (chachaAEAD_lawful P hL c key).roundtrip nonce pt ad (by rw [hns, hnn])
+    rw [hov] at hol
+    refine ⟨out.take (out.length - 16), out.drop (out.length - 16), ?_, by simp; omega, ?_⟩
+    · rw [encNF_chacha P hf hfam c hc hkl hnl, if_neg hk', if_neg (by omega), hs, hsplit]
+      simp only [Outcome.bind]
+      rw [if_neg (by omega)]
+    · rw [decNF_chacha P hf hfam c hc hkl hnl, if_neg hk', if_neg (by omega), hov,
+        if_neg (by simp; omega), List.take_append_drop]
+      exact ho
+
+/-- The hypotheses are satisfiable (toy primitives), and the conclusion is then a concrete run. -/
+example : ∃ ct tag, encryptSymmetric toyPrims [1, 2, 3] "A128CBC-HS256" ⟨.oct, List.replicate 32 9⟩
+      (List.replicate 16 4) [5] = .ok (ct, tag) ∧ tag.length = 16 ∧
+    decryptSymmetric toyPrims ct "A128CBC-HS256" ⟨.oct, List.replicate 32 9⟩ (List.replicate 16 4) tag [5]
+      = .ok [1, 2, 3] :=
+  sym_roundtrip toyPrims toyPrims_ok.1 toyPrims_ok.2 "A128CBC-HS256"
+    { family := .cbchmac, keyLen := 32, nonceLen := 16, tagLen := 16, hashBits := 256 }
+    (by decide) (by decide) (List.replicate 32 9) [1, 2, 3] (List.replicate 16 4) [5]
+    (by decide) (fun _ => by decide) (fun h => by cases h) (fun h => by cases h)
+
+/-! ## 6. dispatch -/
+
+/-- Every name of the three `Supported…Algorithms()` lists reaches a helper of the family the name
+denotes, with the key size / hash / curve the name denotes; the table lookups
+(`expectedKeySize`'s `alg[1:4]`, `getSHAHash`'s `alg[len-3:]`) never go out of range on listed
+names; the generic `Encrypt`/`Decrypt` route every listed encryption name to the right entry
+point.  (Stated over the generated switches and tables; `symFactsB`/`asymPlanOK` are the decidable
+agreement checks of KitProofs/Lemmas/CryptoGlueSpec.lean.) -/
+theorem dispatch_total :
+    (∀ alg ∈ Generated.C03.supportedSymmetric, ∃ d, denotes alg = some d ∧ symFactsB alg d = true) ∧
+    (∀ alg ∈ Generated.C03.supportedAsymmetric,
+      asymPlanOK Generated.C03.sw_EncryptPublicKey denotesEncrypt alg = true ∧
+      asymPlanOK Generated.C03.sw_DecryptPrivateKey denotesDecrypt alg = true ∧
+      encryptRoute alg = some "EncryptPublicKey" ∧ decryptRoute alg = some "DecryptPrivateKey") ∧
+    (∀ alg ∈ Generated.C03.supportedSignature,
+      asymPlanOK Generated.C03.sw_SignPrivateKey denotesSign alg = true ∧
+      asymPlanOK Generated.C03.sw_VerifyPublicKey denotesVerify alg = true) := by
+  refine ⟨?_, by decide, by decide⟩
+  intro alg h
+  have := symDispatchOK_all alg h
+  unfold symDispatchOK at this
+  split at this
+  · rename_i d hd; exact ⟨d, hd, this⟩
+  · cases this
+
+/-- In readable form for the AES families: the helper and the key size. -/
+theorem dispatch_total_keysizes :
+    ∀ alg ∈ Generated.C03.supportedSymmetric, ∀ d, denotes alg = some d →
+      lookupSwitch Generated.C03.sw_EncryptSymmetric alg = some (encHelperName d.family, "") ∧
+      lookupSwitch Generated.C03.sw_DecryptSymmetric alg = some (decHelperName d.family, "") ∧
+      encryptRoute alg = some "EncryptSymmetric" ∧ decryptRoute alg = some "DecryptSymmetric" ∧
+      (d.family = .cbc ∨ d.family = .gcm ∨ d.family = .kw → expectedKeySize alg = .ok d.keyLen) := by
+  intro alg h d hd
+  have hf := symFacts_of_mem h hd
+  obtain ⟨h1, h2, h3, h4⟩ := symFacts_common hf
+  refine ⟨h1, h2, h3, h4, ?_⟩
+  rintro (hfam | hfam | hfam)
+  · exact (symFacts_cbc hf hfam).1
+  · exact (symFacts_gcm hf hfam).1
+  · exact (symFacts_kw hf hfam).1
+
+/-- No listed name makes a table lookup panic. -/
+theorem dispatch_never_out_of_range :
+    (∀ alg ∈ Generated.C03.supportedSymmetric, (expectedKeySize alg).isPanic = false) ∧
+    (∀ alg ∈ Generated.C03.supportedAsymmetric ++ Generated.C03.supportedSignature,
+      (asymPlan Generated.C03.sw_EncryptPublicKey alg).isPanic = false ∧
+      (asymPlan Generated.C03.sw_DecryptPrivateKey alg).isPanic = false ∧
+      (asymPlan Generated.C03.sw_SignPrivateKey alg).isPanic = false ∧
+      (asymPlan Generated.C03.sw_VerifyPublicKey alg).isPanic = false) := by
+  decide
+
+/-- Witness for the finding on the unchanged tree: the case list `Encrypt` had (without the three
+NOPAD names) sends a listed name to the `default` branch. -/
+theorem encrypt_dispatch_prefix_witness :
+    "A128CBC-NOPAD" ∈ Generated.C03.supportedSymmetric ∧
+    lookupSwitch (Switch.mk [(["A128CBC", "A192CBC", "A256CBC", "A128GCM", "A192GCM", "A256GCM",
+        "A128CBC-HS256", "A192CBC-HS384", "A256CBC-HS512", "A128KW", "A192KW", "A256KW", "A128GCMKW",
+        "A192GCMKW", "A256GCMKW", "C20P", "XC20P", "C20PKW", "XC20PKW"], "EncryptSymmetric", "")]
+        "ErrUnsupportedAlgorithm") "A128CBC-NOPAD" = none ∧
+    encryptRoute "A128CBC-NOPAD" = some "EncryptSymmetric" := by
+  decide
+
+/-! ## 7. signatures -/
+
+/-- The kinds of key the harness exercises. -/
+def listedKinds : List KeyKind :=
+  [.oct, .rsaPriv, .rsaPub, .ecPriv 256, .ecPub 256, .ecPriv 384, .ecPub 384, .ecPriv 521, .ecPub 521,
+   .ed25519Priv, .ed25519Pub, .x25519Priv, .x25519Pub]
+
+/-- The verify-side dispatch accepts (the public half of) every key the sign-side accepts, and
+only keys of the kind and curve the name denotes are accepted at all: ES256 takes P-256 only (the
+unchanged code took any curve), RS*/PS* RSA only, EdDSA Ed25519 only. -/
+theorem sig_dispatch_consistent :
+    ∀ alg ∈ Generated.C03.supportedSignature, ∀ k ∈ listedKinds,
+      (asymOutcome "SignPrivateKey" alg k = .ok () → asymOutcome "VerifyPublicKey" alg k = .ok ()) ∧
+      (asymOutcome "SignPrivateKey" alg k = .ok () ∨
+        asymOutcome "SignPrivateKey" alg k = .err eKeyTypeMismatch) ∧
+      (asymOutcome "SignPrivateKey" "ES256" k = .ok () ↔ k = .ecPriv 256) ∧
+      (asymOutcome "SignPrivateKey" "ES384" k = .ok () ↔ k = .ecPriv 384) ∧
+      (asymOutcome "SignPrivateKey" "ES512" k = .ok () ↔ k = .ecPriv 521) ∧
+      (asymOutcome "SignPrivateKey" "RS256" k = .ok () ↔ k = .rsaPriv) ∧
+      (asymOutcome "SignPrivateKey" "EdDSA" k = .ok () ↔ k = .ed25519Priv) := by
+  decide
+
+/-- Verification accepts the signatures made by the matching private key: for every lawful
+scheme, every algorithm name and key kind for which both dispatches accept the key
+(`sig_dispatch_consistent`: for the listed names and kinds the second follows from the first). -/
+theorem sig_verify_sign {SK PK : Type} (S : SigScheme SK PK) (hS : S.Lawful) (alg : String)
+    (kind : KeyKind) (sk : SK) (digest rand sig : Bytes)
+    (hver : asymOutcome "VerifyPublicKey" alg kind = .ok ())
+    (hsign : signPrivateKey S alg kind sk digest rand = .ok sig) :
+    verifyPublicKey S alg kind (S.pub sk) digest sig = .ok true := by
+  unfold signPrivateKey at hsign
+  unfold verifyPublicKey
+  cases ho : asymOutcome "SignPrivateKey" alg kind with
+  | ok u =>
+    rw [ho] at hsign
+    simp only at hsign
+    have hv := hS sk digest rand sig hsign
+    rw [hver]
+    simp only [hv]
+  | err e => rw [ho] at hsign; cases hsign
+  | panic w => rw [ho] at hsign; cases hsign
+
+/-- A trivially lawful scheme (signature = digest) shows the hypotheses are satisfiable. -/
+example : ∃ sig, signPrivateKey (SK := Unit) (PK := Unit)
+      { pub := id, sign := fun _ d _ => .ok d, verify := fun _ d s => if d = s then .valid else .invalid }
+      "ES256" (.ecPriv 256) () [1, 2, 3] [] = .ok sig := ⟨[1, 2, 3], by decide⟩
+
+/-- A verification failure reported by the stdlib verifier is `(false, nil)`, never an error. -/
+theorem verify_false_not_error {SK PK : Type} (S : SigScheme SK PK) (alg : String) (kind : KeyKind)
+    (pk : PK) (digest sig : Bytes) (hinv : S.verify pk digest sig = .invalid)
+    (hdisp : asymOutcome "VerifyPublicKey" alg kind = .ok ()) :
+    verifyPublicKey S alg kind pk digest sig = .ok false := by
+  unfold verifyPublicKey
+  rw [hdisp]
+  simp only [hinv]
+
+/-- … and that mapping is what the source does: every RSA verify helper maps
+`rsa.ErrVerification` to nil, the ECDSA/Ed25519 helpers return the stdlib's boolean. -/
+theorem verify_false_not_error_facts :
+    ∀ h ∈ Generated.C03.asymHelpers,
+      (h.stdCall = "rsa.VerifyPKCS1v15" ∨ h.stdCall = "rsa.VerifyPSS" → h.mapsErrVerification = true) := by
+  decide
 
 end Kit.CryptoGlue
